@@ -227,14 +227,14 @@ def genUCfg : UCfg := ⟨unifierFailureThreshold, unifierSuccessThreshold, unifi
 
 `m` callers ask for permission concurrently while the breaker is open and its timeout has
 elapsed; nobody records an outcome during the race.  A schedule is a list of thread indices;
-each entry lets that thread execute its next atomic action (load / CAS / store / add).
+each entry lets that thread execute its next atomic action (load / CAS / store / add / lock).
+`admitted` is a ghost counter of callers that were answered "go ahead".
 -/
 
-/-- Per-thread program counter of `unifier.CircuitBreaker.Allow`.
-    `loaded st`: `cb.state.Load()` returned `st`, nothing else done yet. -/
+/-- Program counter of one caller inside `unifier.CircuitBreaker.Allow`. -/
 inductive UPc where
   | start                  -- about to `state.Load()`
-  | sawOpen                -- loaded Open, time check passed; about to run transitionToHalfOpen
+  | sawOpen                -- loaded Open, time check passed (pinned: goes on to transitionToHalfOpen)
   | lock                   -- (fixed) waiting for cb.mu
   | recheck                -- (fixed) holds cb.mu, about to re-load state
   | stState | stFailures | stSuccesses | stHalfOpen   -- the four stores of transitionToHalfOpen
@@ -246,27 +246,32 @@ deriving Repr, DecidableEq, Inhabited
 structure UShared where
   state    : Phase
   halfOpen : Nat
-  locked   : Bool := false
-  resets   : Nat := 0      -- ghost: executed `halfOpenRequests.Store(0)` actions
+  owner    : Option Nat := none   -- holder of cb.mu (fixed variant only)
+  resets   : Nat := 0             -- ghost: executed `halfOpenRequests.Store(0)` actions
+  admitted : Nat := 0             -- ghost: callers answered true
 deriving Repr, DecidableEq, Inhabited
 
-/-- One atomic action of one `Allow` caller. Pinned order of the transition's stores:
-    state, failures, successes, halfOpenRequests. Fixed: under `cb.mu`, re-check, counters
-    first and `state` last. -/
-def uMicro (v : Variant) (n : Nat) (sh : UShared) : UPc → UShared × UPc
+/-- One atomic action of caller `i`. Pinned: `transitionToHalfOpen` stores state, failures,
+    successes, halfOpenRequests in this order, unguarded. Fixed (fixes/C08-unifier-halfopen-race.patch):
+    under `cb.mu`, state re-checked, counters first and `state` last. -/
+def uMicro (v : Variant) (n : Nat) (i : Nat) (sh : UShared) : UPc → UShared × UPc
   | .start => match sh.state with
-      | .closed   => (sh, .done true)
+      | .closed   => ({ sh with admitted := sh.admitted + 1 }, .done true)
       | .halfOpen => (sh, .add)
       | .opened   => (sh, match v with | .pinned => .sawOpen | .fixed => .lock)
   | .sawOpen     => (sh, .stState)
-  | .lock        => if sh.locked then (sh, .lock) else ({ sh with locked := true }, .recheck)
+  | .lock        => match sh.owner with
+      | some _ => (sh, .lock)
+      | none   => ({ sh with owner := some i }, .recheck)
   | .recheck     => (sh, if sh.state = .opened then .stFailures else .unlock)
   | .stState     => ({ sh with state := .halfOpen }, match v with | .pinned => .stFailures | .fixed => .unlock)
   | .stFailures  => (sh, .stSuccesses)
   | .stSuccesses => (sh, .stHalfOpen)
   | .stHalfOpen  => ({ sh with halfOpen := 0, resets := sh.resets + 1 }, match v with | .pinned => .add | .fixed => .stState)
-  | .unlock      => ({ sh with locked := false }, .add)
-  | .add         => ({ sh with halfOpen := sh.halfOpen + 1 }, .done (decide (sh.halfOpen + 1 ≤ n)))
+  | .unlock      => ({ sh with owner := none }, .add)
+  | .add         => ({ sh with halfOpen := sh.halfOpen + 1,
+                               admitted := if sh.halfOpen + 1 ≤ n then sh.admitted + 1 else sh.admitted },
+                     .done (decide (sh.halfOpen + 1 ≤ n)))
   | .done b      => (sh, .done b)
 
 def uRace (v : Variant) (n : Nat) : UShared × List UPc → List Nat → UShared × List UPc
@@ -274,15 +279,13 @@ def uRace (v : Variant) (n : Nat) : UShared × List UPc → List Nat → UShared
   | (sh, ts), i :: sched =>
     match ts[i]? with
     | none => uRace v n (sh, ts) sched
-    | some pc => let r := uMicro v n sh pc; uRace v n (r.1, ts.set i r.2) sched
-
-def uAdmitted (ts : List UPc) : Nat := (ts.filter (· == .done true)).length
+    | some pc => uRace v n ((uMicro v n i sh pc).1, ts.set i (uMicro v n i sh pc).2) sched
 
 /-- Start of the race: breaker open, timeout elapsed, `transitionToOpen` left the counter at 0. -/
-def uRaceInit (m : Nat) : UShared × List UPc := (⟨.opened, 0, false, 0⟩, List.replicate m .start)
+def uRaceInit (m : Nat) : UShared × List UPc := ({ state := .opened, halfOpen := 0 }, List.replicate m .start)
 
-/-- Per-thread program counter of `health.CircuitBreaker.IsOpen` once `isOpen = 1` and the
-    timeout check have been passed (both are stable during the race). `t` is the thread's
+/-- Program counter of one caller inside `health.CircuitBreaker.IsOpen` once `isOpen = 1` and the
+    timeout check have been passed (both are stable during the race). `t` is the caller's
     clock reading. -/
 inductive HPc where
   | cas (t : Int)          -- about to CAS(&lastAttempt, 0, t)
@@ -290,22 +293,25 @@ inductive HPc where
   | done (admitted : Bool)
 deriving Repr, DecidableEq, Inhabited
 
-def hMicro (window : Int) (la : Option Int) : HPc → Option Int × HPc
-  | .cas t  => match la with
-      | none   => (some t, .done true)
-      | some _ => (la, .load t)
-  | .load t => match la with
-      | none   => (la, .done true)      -- unreachable: nobody stores 0 during the race
-      | some a => (la, .done (!decide (a + window > t)))
-  | .done b => (la, .done b)
+structure HShared where
+  lastAttempt : Option Int
+  admitted    : Nat := 0   -- ghost
+deriving Repr, DecidableEq, Inhabited
 
-def hRace (window : Int) : Option Int × List HPc → List Nat → Option Int × List HPc
+def hMicro (window : Int) (sh : HShared) : HPc → HShared × HPc
+  | .cas t  => match sh.lastAttempt with
+      | none   => ({ lastAttempt := some t, admitted := sh.admitted + 1 }, .done true)
+      | some _ => (sh, .load t)
+  | .load t => match sh.lastAttempt with
+      | none   => ({ sh with admitted := sh.admitted + 1 }, .done true)   -- unreachable: nobody stores 0 during the race
+      | some a => if a + window > t then (sh, .done false) else ({ sh with admitted := sh.admitted + 1 }, .done true)
+  | .done b => (sh, .done b)
+
+def hRace (window : Int) : HShared × List HPc → List Nat → HShared × List HPc
   | st, [] => st
-  | (la, ts), i :: sched =>
+  | (sh, ts), i :: sched =>
     match ts[i]? with
-    | none => hRace window (la, ts) sched
-    | some pc => let r := hMicro window la pc; hRace window (r.1, ts.set i r.2) sched
-
-def hAdmitted (ts : List HPc) : Nat := (ts.filter (· == .done true)).length
+    | none => hRace window (sh, ts) sched
+    | some pc => hRace window ((hMicro window sh pc).1, ts.set i (hMicro window sh pc).2) sched
 
 end Olla.Model.Breaker
